@@ -34,6 +34,10 @@ func main() {
 		matrix()
 	case "vta":
 		vtaCmd()
+	case "range":
+		rangeCmd(os.Args[2:])
+	case "omatrix":
+		omatrix(os.Args[2:])
 	default:
 		fmt.Fprintln(os.Stderr, "unknown command", os.Args[1])
 		os.Exit(2)
@@ -190,12 +194,42 @@ func effects() {
 
 // matrix runs every registered checker on one load and prints the violated obligations
 // per property (no evidence is written). Used to record which checks catch a seeded change.
+// omatrix applies a diff as an in-memory overlay of the current tree (never touching
+// /repo) and runs every checker on the variant: `elyslint omatrix [-R] [-v] patch.diff`.
+func omatrix(args []string) {
+	rev, verbose := false, false
+	for len(args) > 0 && strings.HasPrefix(args[0], "-") {
+		if args[0] == "-R" {
+			rev = true
+		}
+		if args[0] == "-v" {
+			verbose = true
+		}
+		args = args[1:]
+	}
+	ov, err := rules.OverlayFor(core.RepoDir(), args[0], rev)
+	if err != nil {
+		fmt.Println("APPLY-ERROR", err)
+		os.Exit(3)
+	}
+	P, err := core.Load(core.RepoDir(), ov)
+	if err != nil {
+		fmt.Println("LOAD-ERROR", err)
+		os.Exit(3)
+	}
+	runMatrix(P, verbose)
+}
+
 func matrix() {
 	P, err := core.Load(core.RepoDir(), nil)
 	if err != nil {
 		fmt.Println("LOAD-ERROR", err)
 		os.Exit(3)
 	}
+	runMatrix(P, false)
+}
+
+func runMatrix(P *core.Program, verbose bool) {
 	for _, id := range rules.IDs() {
 		R := core.NewReport(id, "quick")
 		func() {
@@ -213,6 +247,11 @@ func matrix() {
 		}
 		sort.Strings(ks)
 		fmt.Printf("%s %d %s\n", id, len(v), strings.Join(uniq(ks), ","))
+		if verbose {
+			for _, o := range v {
+				fmt.Printf("    %s: [%s] %s — %s\n", o.Pos, o.Status, o.Key(), o.Detail)
+			}
+		}
 	}
 }
 
@@ -273,4 +312,38 @@ func vtaCmd() {
 		fmt.Println("EXT-UNROOTED", k, "←", ext[k])
 	}
 	fmt.Printf("vta: %d functions, %d Elys→Elys edges, repo-CHA %d edges, missing (caller root-reachable) %d\n", nf, len(edges), len(chaSet), missing)
+}
+
+// rangeCmd prints the abstract values (R10) of every result at every non-error return of a
+// function: `elyslint range <table.json> <funcKey>`.
+func rangeCmd(args []string) {
+	P := mustLoad()
+	spec, err := rules.LoadRangeSpec(args[0])
+	if err != nil {
+		fmt.Println(err)
+		os.Exit(2)
+	}
+	fn := P.ByKey[args[1]]
+	if fn == nil {
+		fmt.Println("no such function")
+		os.Exit(2)
+	}
+	E := core.NewRanger(P, spec)
+	ctx := E.TopCtx(fn)
+	for _, ex := range P.Facts(fn).Exits() {
+		ret, ok := ex.Instr.(*ssa.Return)
+		if !ok || ex.Kind == core.ExitError {
+			continue
+		}
+		fmt.Println("return at", P.Pos(ret.Pos()))
+		for i, r := range ret.Results {
+			fmt.Printf("   #%d %s\n", i, E.ValAt(ctx, r, ret))
+		}
+	}
+	for _, w := range E.Why {
+		fmt.Println("note:", w)
+	}
+	for _, u := range core.SortedKeys(E.Used) {
+		fmt.Println("used:", u)
+	}
 }
